@@ -194,6 +194,10 @@ def execute(prop, run):
             ex.fault('F9-interrupt', f.get('interrupt', 0))
             if rec.get('io_fired'):
                 ex.fault('io-fault', 1)
+            if name in ('rng_draws', 'rng_reseed') and oc == 'ok':
+                ex.fault('F6-rng', 1)
+            if name == 'clock_jump' and oc == 'ok':
+                ex.fault('F7-clock', 1)
             ex.log.append((
                 'OP', ev['id'], name, oc, rec.get('exc'), rec.get('digest'),
                 tuple(tuple(w) for w in rec.get('warnings', [])),
